@@ -139,6 +139,24 @@ func (w *FailWriter) Write(p []byte) (int, error) {
 		}
 		w.Got = append(w.Got, p...)
 		return len(p), nil
+	case "once-full":
+		// the At-th call takes all its bytes and reports an error all the same
+		// (a quota checked after the write, a tee whose second sink failed)
+		w.Got = append(w.Got, p...)
+		if w.Calls == w.At {
+			w.Fired++
+			return len(p), ErrInjected
+		}
+		return len(p), nil
+	case "full":
+		// sticky variant: from the call that crosses At on, every call takes its
+		// bytes and reports the error
+		w.Got = append(w.Got, p...)
+		if len(w.Got) > w.At {
+			w.Fired++
+			return len(p), ErrInjected
+		}
+		return len(p), nil
 	case "short":
 		if len(w.Got) >= w.At {
 			w.Fired++
